@@ -110,8 +110,11 @@ class CVise:
             pass_group[category] = []
 
             for pass_dict in pass_group_dict[category]:
-                if not include_pass(pass_dict, pass_options):
-                    continue
+                # validate the entry before filtering it: a misspelt pass or option
+                # must not hide behind an option that happens to be inactive
+                for key in ('include', 'exclude'):
+                    if key in pass_dict:
+                        parse_options(pass_dict[key])
 
                 if 'pass' not in pass_dict:
                     raise CViseError(f'Invalid pass in category {category}')
@@ -120,6 +123,9 @@ class CVise:
                     pass_class = cls.pass_name_mapping[pass_dict['pass']]
                 except KeyError:
                     raise CViseError('Unkown pass {}'.format(pass_dict['pass'])) from None
+
+                if not include_pass(pass_dict, pass_options):
+                    continue
 
                 pass_instance = pass_class(pass_dict.get('arg'), external_programs)
                 pass_instance.max_transforms = None
